@@ -3,6 +3,7 @@ in the same calendar -- wherever it stands in the file, whatever was parsed befo
 from vf.core import cfg_text, Machinery
 from icalendar import Calendar
 from icalendar.timezone import tzp
+from vf.realcode import switch_provider
 
 TZID = "Verif/History"
 
@@ -48,8 +49,8 @@ def run(ctx, rnd):
     ctx.sample({"history_vector": vecs[len(vecs) // 2]})
     for prov in ("zoneinfo", "pytz"):
         try:
-            for v in vecs:
-                tzp.use(prov)                      # empties the cache
+            for vi, v in enumerate(vecs):
+                switch_provider(prov, vi)          # empties the cache (by any of the documented routes)
                 if v["cache"]:
                     # an earlier calendar that left `cache` behind: definition first, or -- same effect on the
                     # cache -- a use that stands before its definition (a failed lookup must leave nothing behind)
@@ -75,8 +76,8 @@ def run(ctx, rnd):
                 for e in Calendar.from_ical(text).walk("VEVENT")]
     for prov in ("zoneinfo", "pytz"):
         try:
-            for name in ("CET-1CEST", "JST-9", "XYZ3", "AAA-2BBB", "UTC+3", "GMT+5", "EST5", "PST8PDT7", "<-03>3", "Custom"):
-                tzp.use(prov)
+            for ni, name in enumerate(("CET-1CEST", "JST-9", "XYZ3", "AAA-2BBB", "UTC+3", "GMT+5", "EST5", "PST8PDT7", "<-03>3", "Custom")):
+                switch_provider(prov, ni + 1)
                 text = "\r\n".join(["BEGIN:VCALENDAR", "VERSION:2.0", "PRODID:verif", "BEGIN:VTIMEZONE", f"TZID:{name}", "BEGIN:STANDARD", "DTSTART:19700101T000000",
                                     "TZOFFSETFROM:+0545", "TZOFFSETTO:+0545", "TZNAME:OWN", "END:STANDARD", "END:VTIMEZONE", "BEGIN:VEVENT", "UID:1",
                                     f"DTSTART;TZID={name}:20210330T120000", "END:VEVENT", "BEGIN:VEVENT", "UID:2", f"DTSTART;TZID={name}:20211130T120000",
